@@ -13,6 +13,11 @@ What is observed and what is derived
                free                        node removed -> remove
              `pre` (argument checks before the lock) is placed directly after `call`: nothing it reads can change
              under the contract that a handle is used by one call at a time.
+  join       every created descriptor is named `Q<address>`: the trace shows the store of TERMINATED into its state
+             word (thread_root_func, on the stream's own native thread: the stream has stopped executing) and that same
+             thread blocking on ctx.state_cond (xstream_context_thread_func: parked).  `joined a` — the join part of a's
+             ABT_xstream_free is complete — is emitted when both have been seen for a's target (at once if they
+             were seen before the call).  A free that touches the list lock before that is rejected by the model.
 The model decides whether the derived events are possible (e.g. a release after a successful scan without an
 insertion, or an insertion where its own scan finds the rank taken, is rejected) and the driver compares the list at
 every release, node by node, with the model's list.  Descriptor addresses are renamed: primary = 1, every creation
@@ -49,6 +54,26 @@ def project(log):
     holder = None         # actor inside the critical section
     snap_at_clear = {}    # actor -> list logged at the release of the critical section it is in
     intervals = []        # (actor, op, rank, i_call, i_ret, outcome) for the evidence counters
+    stopped_by = {}       # descriptor address -> tid that stored TERMINATED into its state word
+    parked = set()        # descriptor addresses whose native thread is parked after that
+    try:
+        o_state = log.off("ABTI_xstream", "state")
+        o_cond = log.off("ABTI_xstream", "ctx.state_cond")
+    except KeyError:
+        o_state = o_cond = None
+    v_term = [1]
+
+    def qaddr(loc):
+        n, o = t3.split_loc(loc)
+        if n.startswith("Q0x"):
+            return n[1:], o
+        return None, None
+
+    def freeing(addr):
+        for b, rec in inflight.items():
+            if rec["op"] == "free" and rec["ptr"] == addr and not rec.get("joined"):
+                return b, rec
+        return None, None
     ev = log.events
     ended = False
 
@@ -69,7 +94,9 @@ def project(log):
         if t == "S" and e["txt"] and e["txt"][0] == "rk":
             x = e["txt"]
             k = x[1]
-            if k == "primary":
+            if k == "const" and x[2] == "terminated":
+                v_term[0] = int(x[3])
+            elif k == "primary":
                 addr2id[x[2]] = 1
                 last = (1, [(x[2], 0)])
             elif k == "start":
@@ -77,6 +104,11 @@ def project(log):
                     ext_actor[e["tid"]] = int(x[2])
             elif k == "end":
                 ended = True
+                for kv in x[2:]:
+                    if "=" in kv:
+                        n, v = kv.split("=", 1)
+                        if n in ("busy", "free_while_busy", "claims_while_busy"):
+                            pr.stats["harness_" + n] += int(v)
             elif k == "call":
                 a, op = int(x[2]), x[3]
                 rec = {"op": op, "i": i, "ptr": None, "mid": None, "rank": None}
@@ -97,12 +129,16 @@ def project(log):
                     rec["ptr"] = x[4]
                     rec["mid"] = addr2id.get(x[4], 0)
                     emit("call %d free %d" % (a, rec["mid"]), e)
+                    pr.stats["free_of_running_stream" if x[4] not in parked else "free_of_stopped_stream"] += 1
                 elif op == "getnum":
                     emit("call %d getnum" % a, e)
                 else:
                     emit("call %d %s" % (a, op), e)     # unknown: the driver answers bad-op
                 inflight[a] = rec
                 emit("pre %d" % a, e)
+                if op == "free" and rec["ptr"] in parked:
+                    rec["joined"] = True
+                    emit("joined %d" % a, e)
                 pr.stats["calls"] += 1
                 pr.stats["call_" + op] += 1
             elif k == "ret":
@@ -119,6 +155,21 @@ def project(log):
                     intervals.append((a, op, rec["rank"], rec["i"], i, rc))
                 if rec is not None and op == "free" and rc == "ok":
                     addr2id.pop(rec["ptr"], None)
+                    stopped_by.pop(rec["ptr"], None)
+                    parked.discard(rec["ptr"])
+        elif t == "A" and e["op"] == "store" and e["loc"].startswith("Q0x"):
+            addr, off = qaddr(e["loc"])
+            if addr is not None and off == o_state and e["a"] == v_term[0]:
+                stopped_by[addr] = e["tid"]
+        elif t == "B" and e["kind"] == "cond" and e["obj"].startswith("Q0x"):
+            addr, off = qaddr(e["obj"])
+            if addr is not None and off == o_cond and stopped_by.get(addr) == e["tid"] and addr not in parked:
+                parked.add(addr)
+                b, rec = freeing(addr)
+                if rec is not None:
+                    rec["joined"] = True
+                    emit("joined %d" % b, e)
+                    pr.stats["joins_completed_inside_free"] += 1
         elif t == "A" and e["loc"] == "RL":
             a = actor_of(e)
             if a is None:
@@ -212,3 +263,24 @@ def validate(log, params, stats=None):
                         "projected_context": pr.lines[max(0, idx - 14): idx + 2],
                         "log_line": pr.src[idx] if idx < len(pr.src) else None})
     return rejects, set(trans), len(pr.lines)
+
+
+def reject_is_failure(rj):
+    """Model.RankConc's guards are clauses of the property (the list changes only under the lock and only after a scan
+    in the same lock hold; a stream leaves the list only after the join part of its free completed; the list at every
+    release is the model's list; a caller is told what took effect): a real execution the model rejects is a failing
+    history.  Lines the projection could not attribute are problems of the tie, not failures."""
+    r = rj.get("reject", "")
+    if not r.startswith("REJECT") or "bad-op" in r or "unattributed" in r:
+        return None
+    what = "execution of the real library is not a run of Model.RankConc"
+    if "pc=ArgoVerif.Model.RankConc.Pc.joining" in r:
+        what = ("ABT_xstream_free touches the stream list (rank returned / num_xstreams decremented) before its join has "
+                "completed: the stream can still be executing ULTs while its rank is given to another stream and get_num "
+                "no longer counts it")
+    elif "pc=ArgoVerif.Model.RankConc.Pc.chkOk" in r and "clear" in r.split("|")[0]:
+        what = ("the list lock is released between the rank availability scan and the insertion (check and insertion in "
+                "different critical sections): concurrent creators can be granted the same rank")
+    elif "snapshot-differs" in r:
+        what = "the stream list at a lock release differs from the model's list"
+    return "%s: %s" % (what, r[:400])
